@@ -13,6 +13,9 @@ Bad(e) ==
   CASE e.op = "draw" ->
          (IF ~e.ok THEN {"raised"} ELSE Replay(e.reqs, 1, e.n, e.value)
                                        \cup (IF InRange(e.value, e.n) THEN {} ELSE {"value-out-of-range"}))
+    [] e.op = "drawfirst" ->
+         (IF ~e.ok THEN {"raised"} ELSE ReplayFirst(e.reqs, 1, e.n, e.value)
+                                       \cup (IF InRange(e.value, e.n) THEN {} ELSE {"value-out-of-range"}))
     [] e.op = "seed" ->
          IF ~e.ok THEN {"seed-helper-raised"}
          ELSE (IF InRange(e.value, e.n) THEN {} ELSE {"seed-value-out-of-range"})
